@@ -71,7 +71,38 @@ def _run_case(case):
     return bad
 
 
+def _zero_numerator_case(rng):
+    """A variant whose numerator mean is exactly 0.0 (balanced +k / -k) over a real denominator: the ratio is 0, its variance
+    var_x / mean_y^2, and nothing is degenerate."""
+    cfg = meanx.cfg_json(meanx.rand_cfg(rng, covariates=0, ratio_metric=True))
+    nc, half = rng.choice([3, 10, 40]), rng.choice([2, 5, 20])
+    control = meanx.float_table(rng, nc, kind="ints")
+    treatment = meanx.float_table(rng, 2 * half, kind="ints")
+    ks = [float(rng.randint(1, 9)) for _ in range(half)]
+    treatment[cfg["numer"]] = ks + [-k for k in ks]
+    return {"cfg": cfg, "control": control, "treatment": treatment, "zero_numerator_mean": True}
+
+
+def _run_zero(case):
+    import tea_tasting as tt
+    cfg = case["cfg"]
+    kw = dict(alternative=cfg["alternative"], confidence_level=float(F(cfg["confidence_level"])),
+              equal_var=cfg["equal_var"], use_t=cfg["use_t"])
+    res = tt.RatioOfMeans(cfg["numer"], cfg["denom"], **kw).analyze(_table(case), 0, 1, "variant")
+    ref = meanx.reference_test(_lin(case["control"], cfg["numer"], cfg["denom"]), _lin(case["treatment"], cfg["numer"], cfg["denom"]),
+                               cfg["alternative"], cfg["equal_var"], cfg["use_t"], kw["confidence_level"])
+    return [("zero numerator mean:" + f, g, w) for f, g, w in meanx.compare_result(res, ref, skip_rel_ci=True)]
+
+
 def oracle(ctx, deep=False):
+    for i in range(ctx.n(20, 400) * (3 if deep else 1)):
+        case = _zero_numerator_case(ctx.rng)
+        bad = _run_zero(case)
+        ctx.evaluations += 1
+        ctx.count("oracle:zero-numerator-mean")
+        if bad:
+            ctx.violations.append({"what": "RatioOfMeans: " + bad[0][0], "detail": str(bad[:4]), "input": case})
+            break
     n = ctx.n(100, 3000) * (3 if deep else 1)
     for i in range(n):
         cfg = meanx.cfg_json(meanx.rand_cfg(ctx.rng, covariates=0, ratio_metric=True))
@@ -88,7 +119,7 @@ def oracle(ctx, deep=False):
 
 
 def replay(ctx, rp):
-    bad = _run_case(rp["input"])
+    bad = _run_zero(rp["input"]) if rp["input"].get("zero_numerator_mean") else _run_case(rp["input"])
     return {"fails": bool(bad), "failures": [str(b) for b in bad]}
 
 
